@@ -1,6 +1,9 @@
 package main
 
 import (
+	"fmt"
+	"strings"
+
 	"golang.org/x/tools/go/ssa"
 )
 
@@ -58,7 +61,7 @@ func rulePublishAfterCommit(c *Ctx, sa *sharedAnalysis, r *Report, rule string) 
 					continue
 				}
 				for _, t := range nilTestsOf(c, ev) {
-					if blockOrDom(t.N, st.Block()) && t.N != t.S {
+					if nilEdgeDom(t, st.Block()) && t.N != t.S {
 						okk = true
 					}
 				}
@@ -91,6 +94,9 @@ func propC09(c *Ctx, r *Report) {
 		"pegnet.BlockSync.Synced": "the sync height: persisted in pn_metadata inside every block transaction and restored at start-up (C02-R4, C02-R6)",
 	})
 	// package-level variables written in R(SYNC): activation globals must be stable
+	// window size: the incremental path must leave the same number of entries as a reload
+	r.rule("C09/window-size", 1, "the incrementally maintained averaging window has the size of a reloaded one")
+	windowSize(c, r, "C09/window-size")
 	r.rule("C09/config-stable", 1, "no activation/config global is written while the daemon runs")
 	n := 0
 	for _, a := range sa.Acc {
@@ -111,4 +117,74 @@ func addrOf(ins ssa.Instruction) ssa.Value {
 		return st.Addr
 	}
 	return nil
+}
+
+// windowSize: in GetPegNetRateAverages the incremental path trims each series while len >= AveragePeriod
+// before appending one entry (so it holds at most AveragePeriod entries, like the reload path, which collects
+// the heights height-AveragePeriod+1 .. height).
+func windowSize(c *Ctx, r *Report, rule string) {
+	g := c.fn("node.Pegnetd.GetPegNetRateAverages")
+	var bad []string
+	trimOK := false
+	for f := range c.reach(g) {
+		if f.Parent() != g {
+			continue
+		}
+		for _, l := range naturalLoops(f) {
+			cond, body, _ := condEdge(l.header)
+			bo, ok := cond.(*ssa.BinOp)
+			if !ok {
+				continue
+			}
+			lc, ok := bo.X.(*ssa.Call)
+			if !ok {
+				continue
+			}
+			if bi, ok := lc.Call.Value.(*ssa.Builtin); !ok || bi.Name() != "len" {
+				continue
+			}
+			if !sliceHas(bo.Y, func(v ssa.Value) bool { return valuePath(v) == "node.AveragePeriod" }) {
+				continue
+			}
+			// the loop body shrinks the series (a Slice with High = len-1)
+			shr := false
+			for b := range l.blocks {
+				if b == body || body.Dominates(b) {
+					for _, ins := range b.Instrs {
+						if _, ok := ins.(*ssa.Slice); ok {
+							shr = true
+						}
+					}
+				}
+			}
+			if !shr {
+				continue
+			}
+			if bo.Op.String() == ">=" {
+				trimOK = true
+			} else {
+				bad = append(bad, fmt.Sprintf("the trim loop at %s runs while len %s AveragePeriod: after the following append the incremental window holds AveragePeriod+1 entries while a reload collects AveragePeriod", c.ipos(bo), bo.Op))
+			}
+		}
+	}
+	if !trimOK && len(bad) == 0 {
+		bad = append(bad, "no trim loop `for len(series) >= AveragePeriod` found in the incremental path")
+	}
+	// reload path: start height = height - AveragePeriod + 1
+	startOK := false
+	allInstrs(g, func(ins ssa.Instruction) {
+		bo, ok := ins.(*ssa.BinOp)
+		if !ok || bo.Op.String() != "+" {
+			return
+		}
+		if k, ok := bo.Y.(*ssa.Const); ok && k.Int64() == 1 {
+			if sub, ok := bo.X.(*ssa.BinOp); ok && sub.Op.String() == "-" && sliceHas(sub.Y, func(v ssa.Value) bool { return valuePath(v) == "node.AveragePeriod" }) && sliceHas(sub.X, func(v ssa.Value) bool { p, ok := v.(*ssa.Parameter); return ok && p.Name() == "height" }) {
+				startOK = true
+			}
+		}
+	})
+	if !startOK {
+		bad = append(bad, "the reload path does not start at height - AveragePeriod + 1")
+	}
+	r.check(len(bad) == 0, rule, "GetPegNetRateAverages window bounds", c.pos(g.Pos()), "trim while len >= AveragePeriod, then append; reload from height-AveragePeriod+1", strings.Join(bad, "; "))
 }
